@@ -8,6 +8,14 @@ TYPES = ["int", "counted", "void"]
 PROMISE_MODES = ["pf", "ff", "gp", "ip", "ls"]
 ACTS = ["copy", "drop", "peek", "coro", "sync", "cb"]
 AWAITS = ("coro", "sync", "cb")
+# spellings of the blocking observer (same atomic operations, same model step): wait(), force_wait(), sync()+value(),
+# force_sync()+value(), join()+value(), operator Base& then future::wait(); cpeek = ready()+value() through operator Base&
+SYNC_SPELLINGS = ("sync", "fwait", "ssync", "fsync", "join", "conv")
+PEEK_SPELLINGS = ("peek", "cpeek")
+
+
+def style_of(tok):
+    return "sync" if tok in SYNC_SPELLINGS else "peek" if tok in PEEK_SPELLINGS else tok
 RKINDS = ["value", "exc", "drop", "dtor"]
 
 _SLOT = re.compile(r"\ba\d+\.\d+ (?=(?:null|ptr|inst|ready)\b)")
@@ -44,7 +52,15 @@ def random_prog(rng, maxlen):
     if style < 0.3:
         return []
     w = [3, 4, 2, 3, 3, 3]
-    return [rng.choices(ACTS, w)[0] for _ in range(k)]
+    return [spell(rng, rng.choices(ACTS, w)[0]) for _ in range(k)]
+
+
+def spell(rng, a):
+    if a == "sync":
+        return rng.choice(SYNC_SPELLINGS)
+    if a == "peek":
+        return rng.choice(PEEK_SPELLINGS)
+    return a
 
 
 def gen_random(rng, count, max_handles=3, maxlen=5):
@@ -91,7 +107,7 @@ def fixed_shapes():
         for rk in RKINDS:
             out.append(("counted", mode, 0, ["t c drop", res_line(rk, 1)]))
             out.append(("counted", mode, 0, ["t c", res_line(rk, 1), "t h drop"]))
-            for aw in AWAITS:
+            for aw in AWAITS + SYNC_SPELLINGS[1:]:
                 out.append(("counted", mode, 0, ["t c " + aw + " drop", res_line(rk, 2)]))
                 out.append(("int", mode, 0, ["t c drop", "t h copy " + aw + " drop drop", res_line(rk, 3)]))
     return out
@@ -132,13 +148,36 @@ def effective_awaits(case):
                     held += 1
                 elif a == "drop":
                     held -= 1
-                elif a == "peek":
+                elif a in PEEK_SPELLINGS:
                     peeks[ti] = peeks.get(ti, 0) + 1
-                elif a in AWAITS and not done:
+                elif style_of(a) in AWAITS and not done:
                     done = True
-                    aw[ti] = a
+                    aw[ti] = style_of(a)
         ti += 1
     return aw, peeks
+
+
+def executed_spellings(case):
+    """token -> number of threads/occurrences in which the spelling is actually executed (holds a handle; first await only)"""
+    out = {}
+    for l in case["lines"][1:]:
+        w = l.split()
+        if w[0] != "t" or w[1] not in ("c", "h"):
+            continue
+        held, done = 1, False
+        for a in w[2:]:
+            if held == 0:
+                continue
+            if a == "copy":
+                held += 1
+            elif a == "drop":
+                held -= 1
+            elif a in PEEK_SPELLINGS:
+                out[a] = out.get(a, 0) + 1
+            elif style_of(a) in AWAITS and not done:
+                done = True
+                out[a] = out.get(a, 0) + 1
+    return out
 
 
 def parse(case, out):
@@ -206,7 +245,8 @@ class SharedFutureSuite(Suite):
         mode = hdr[4]
         if i["crash"]:
             if mode in ("gp", "ls", "ip") and not i["ops"]:
-                return ["late-init: a default-constructed shared_future could not be initialised (%s)" % i["crash"]]
+                return ["late-init: crashed before any operation was logged — a default-constructed shared_future could not be initialised, "
+                        "or the crash lost the log (%s)" % i["crash"]]
             return ["memory: the implementation crashed (use after free / double free / null dereference: %s)" % i["crash"]]
         if i["assert"]:
             return ["life: library assertion failed (%s)" % i["assert"]]
@@ -275,6 +315,7 @@ class SharedFutureSuite(Suite):
     def stats(self, cases, outs):
         modes, types, rks, aws, freer, switches, nthreads = {}, {}, {}, {}, {}, 0, {}
         before_ctor = charged_refused = dropped_all_pending = 0
+        spellings = {}
         for c in cases:
             hdr = c["lines"][0].split()
             modes[hdr[4]] = modes.get(hdr[4], 0) + 1
@@ -284,6 +325,8 @@ class SharedFutureSuite(Suite):
             for w in th:
                 if w[1] == "r":
                     rks[w[2]] = rks.get(w[2], 0) + 1
+            for tok, n in executed_spellings(c).items():
+                spellings[tok] = spellings.get(tok, 0) + n
             for t, k in effective_awaits(c)[0].items():
                 aws[k] = aws.get(k, 0) + 1
             o = outs.get(str(c["id"]), [])
@@ -301,7 +344,7 @@ class SharedFutureSuite(Suite):
                 nh = sum(1 for w in th if w[1] in ("c", "h"))
                 if sum(1 for n in fins if n < i["resolved_at"]) >= nh:
                     dropped_all_pending += 1
-        return {"modes": modes, "value_types": types, "resolver_kinds": rks, "await_styles": aws, "threads_per_case": nthreads,
+        return {"modes": modes, "value_types": types, "resolver_kinds": rks, "await_styles": aws, "executed_spellings": spellings, "threads_per_case": nthreads,
                 "state_freed_by_thread_kind": freer, "context_switches_total": switches,
                 "resolved_before_tracer_was_wired": charged_refused, "every_handle_dropped_while_pending": dropped_all_pending}
 
